@@ -1067,7 +1067,7 @@ fn type_cases<const N: usize>(c: &mut Ctx) {
 pub fn run(c: &mut Ctx) {
     c.note(
         "rule",
-        json!("per (proof type in {CommitmentProof<G1>, CommitmentProof<G2>, SignatureProof, SignatureRequestProof}, N in {1,2,3,5,8,13}, instance = message variant over {0,1,q-1,small,random} and pinned-zero commitment scalars): the honest proof (control), every wire atom of the proof replaced in turn (other valid point, identity, scalar +1/-1/random) and re-decoded, three wrong challenges, a fresh parameter set / key and every parameter atom replaced, simulated transcripts (honest C / random C / zero responses; T = Com(resp) - c*C) and compensated multi-field changes each verified under c, under c' and under the Fiat-Shamir challenge of the assembled proof, objects without an opening, and signature proofs built with zero bytes injected at every 64-byte draw of the prover (the randomizer draw gives the all-identity signature, verified in memory). Each observation compares the library verifier with the reference relation on the wire atoms. Distinct = distinct (type, N, message classes, perturbed atom path or transcript class, replacement kind / challenge)."),
+        json!("per (proof type in {CommitmentProof<G1>, CommitmentProof<G2>, SignatureProof, SignatureRequestProof}, N in {1,2,3,5,8,13}, instance = message variant over {0,1,q-1,small,random} and pinned-zero commitment scalars): the honest proof (control), every wire atom of the proof replaced in turn (other valid point, identity, scalar +1/-1/random) and re-decoded, three wrong challenges, a fresh parameter set / key and every parameter atom replaced, simulated transcripts (honest C / random C / zero responses; T = Com(resp) - c*C) and compensated multi-field changes each verified under c, under c' and under the Fiat-Shamir challenge of the assembled proof, objects without an opening, and signature proofs built with zero bytes injected at every 64-byte draw of the prover (the randomizer draw gives the all-identity signature, verified in memory). Each observation compares the library verifier with the reference relation on the wire atoms. Distinct = distinct (type, N, message classes, perturbed atom path or transcript class, replacement kind / challenge). Added later: non-canonical (+q) scalars, length prefixes, order-3 shifts, simulated transcripts with machine-word-sized responses and about the identity statement. One decoded object verified under alternating challenges; blinding factor related to key and message."),
     );
     verif_hooks::clear();
     type_cases::<1>(c);
